@@ -386,3 +386,23 @@ pub fn numeric_edge(rng: &mut Rng) -> String {
         _ => format!("a[{}:{}:{}].b", p(rng), p(rng), p(rng)),
     }
 }
+
+/// A sentence in which one identifier position holds a quoted token (quoted
+/// identifier, raw string or backtick literal) with a hostile body: control
+/// characters, lone backslashes, delimiters, escapes of every kind.
+pub fn hostile_quoted_sentence(rng: &mut Rng) -> String {
+    const BODY: [&str; 30] = [
+        "a", "b", " ", "\t", "\n", "\r", "\u{0}", "\u{1f}", "\u{7f}", "\\", "\\\\", "\\\"", "\\'", "\\`", "\\n", "\\t", "\\u0041", "\\u00e9", "\\ud83d\\ude00", "\\ud800",
+        "\\x", "é", "日", "\u{1F600}", "\"", "'", "`", "1", "[", "{",
+    ];
+    let n = rng.below(6);
+    let body: String = (0..n).map(|_| BODY[rng.below(BODY.len())]).collect();
+    let tok = match rng.below(4) {
+        0 | 1 => format!("\"{}\"", body),
+        2 => format!("'{}'", body),
+        _ => format!("`\"{}\"`", body),
+    };
+    let frames = ["{}", "a.{}", "{}.b", "[{}, a]", "{{k: {}}}", "a[?{} == b]", "{} || a", "length({})", "{{{}: a}}", "a | {}"];
+    let f = frames[rng.below(frames.len())];
+    f.replacen("{}", &tok, 1).replace("{{", "{").replace("}}", "}")
+}
